@@ -20,7 +20,10 @@ type c02Kind struct {
 	// Files: file templates with %A% and %B% where the two lists go.
 	Files []string
 	// element texts (plain and with an inner comment) for list A (3) and list B (2)
-	A, B   [][2]string
+	A, B [][2]string
+	// Inner2: element index -> text with a nested list whose last element carries a trailing comment
+	// followed by a dangling comment line (both are inside the chunk)
+	Inner2 map[int]string
 	Term   string // terminator written after each element in own-line mode ("," for expression lists)
 	Inline bool   // supports the inline (single line, ", "-separated) layout
 	// Locate returns the two list holders (node + slice field name) in the decorated files.
@@ -65,47 +68,47 @@ func nth(f *dst.File, typ string, n int) dst.Node {
 }
 
 var c02Kinds = []c02Kind{
-	{Name: "stmt", Files: []string{"package p\n\nfunc f() {\n%A%\n}\n\nfunc g() {\n%B%\n}\n"},
+	{Name: "stmt", Inner2: map[int]string{2: "if e {\nf() // it2\n// id2\n}"}, Files: []string{"package p\n\nfunc f() {\n%A%\n}\n\nfunc g() {\n%B%\n}\n"},
 		A: [][2]string{{"a()", "a( /*i0*/ )"}, {"b := c + d", "b := /*i1*/ c + d"}, {"if e {\nf()\n}", "if /*i2*/ e {\nf()\n}"}},
 		B: [][2]string{{"x()", "x( /*i3*/ )"}, {"y++", "y /*i4*/ ++"}},
 		Locate: func(fs []*dst.File) [2]listRef {
 			return [2]listRef{{fs[0].Decls[0].(*dst.FuncDecl).Body, "List"}, {fs[0].Decls[1].(*dst.FuncDecl).Body, "List"}}
 		}},
-	{Name: "decl", Files: []string{"package p\n\n%A%\n", "package q\n\n%B%\n"},
+	{Name: "decl", Inner2: map[int]string{2: "type c struct {\nX int // it2\n// id2\n}"}, Files: []string{"package p\n\n%A%\n", "package q\n\n%B%\n"},
 		A:      [][2]string{{"var a int", "var /*i0*/ a int"}, {"func b() {}", "func /*i1*/ b() {}"}, {"type c struct {\nX int\n}", "type c /*i2*/ struct {\nX int\n}"}},
 		B:      [][2]string{{"var x int", "var /*i3*/ x int"}, {"const y = 1", "const y /*i4*/ = 1"}},
 		Locate: func(fs []*dst.File) [2]listRef { return [2]listRef{{fs[0], "Decls"}, {fs[1], "Decls"}} }},
-	{Name: "spec", Files: []string{"package p\n\nvar (\n%A%\n)\n\nvar (\n%B%\n)\n"},
+	{Name: "spec", Inner2: map[int]string{2: "d = []int{\n1, // it2\n// id2\n}"}, Files: []string{"package p\n\nvar (\n%A%\n)\n\nvar (\n%B%\n)\n"},
 		A: [][2]string{{"a int", "a /*i0*/ int"}, {"b, c = 1, 2", "b, c = /*i1*/ 1, 2"}, {"d = []int{\n1,\n}", "d = /*i2*/ []int{\n1,\n}"}},
 		B: [][2]string{{"x int", "x /*i3*/ int"}, {"y = 2", "y = /*i4*/ 2"}},
 		Locate: func(fs []*dst.File) [2]listRef {
 			return [2]listRef{{fs[0].Decls[0], "Specs"}, {fs[0].Decls[1], "Specs"}}
 		}},
-	{Name: "field", Files: []string{"package p\n\ntype S struct {\n%A%\n}\n\ntype T struct {\n%B%\n}\n"},
+	{Name: "field", Inner2: map[int]string{2: "D struct {\nE int // it2\n// id2\n}"}, Files: []string{"package p\n\ntype S struct {\n%A%\n}\n\ntype T struct {\n%B%\n}\n"},
 		A: [][2]string{{"A int", "A /*i0*/ int"}, {"B, C string", "B, C /*i1*/ string"}, {"D struct {\nE int\n}", "D /*i2*/ struct {\nE int\n}"}},
 		B: [][2]string{{"X int", "X /*i3*/ int"}, {"Y bool", "Y /*i4*/ bool"}},
 		Locate: func(fs []*dst.File) [2]listRef {
 			return [2]listRef{{nth(fs[0], "StructType", 0).(*dst.StructType).Fields, "List"}, {nth(fs[0], "StructType", 2).(*dst.StructType).Fields, "List"}}
 		}},
-	{Name: "method", Files: []string{"package p\n\ntype S interface {\n%A%\n}\n\ntype T interface {\n%B%\n}\n"},
+	{Name: "method", Inner2: map[int]string{2: "C(\nx int, // it2\n// id2\n)"}, Files: []string{"package p\n\ntype S interface {\n%A%\n}\n\ntype T interface {\n%B%\n}\n"},
 		A: [][2]string{{"A()", "A( /*i0*/ )"}, {"B(x int) error", "B(x int) /*i1*/ error"}, {"C(\nx int,\n)", "C( /*i2*/\nx int,\n)"}},
 		B: [][2]string{{"X()", "X( /*i3*/ )"}, {"Y() int", "Y() /*i4*/ int"}},
 		Locate: func(fs []*dst.File) [2]listRef {
 			return [2]listRef{{nth(fs[0], "InterfaceType", 0).(*dst.InterfaceType).Methods, "List"}, {nth(fs[0], "InterfaceType", 1).(*dst.InterfaceType).Methods, "List"}}
 		}},
-	{Name: "elt", Files: []string{"package p\n\nvar s = []int{\n%A%\n}\n\nvar t = []int{\n%B%\n}\n"}, Term: ",", Inline: true,
+	{Name: "elt", Inner2: map[int]string{2: "f(\n4, // it2\n// id2\n)"}, Files: []string{"package p\n\nvar s = []int{\n%A%\n}\n\nvar t = []int{\n%B%\n}\n"}, Term: ",", Inline: true,
 		A: [][2]string{{"1", "(1 /*i0*/)"}, {"2 + 3", "2 + /*i1*/ 3"}, {"f(\n4,\n)", "f( /*i2*/\n4,\n)"}},
 		B: [][2]string{{"7", "(7 /*i3*/)"}, {"8 * 9", "8 * /*i4*/ 9"}},
 		Locate: func(fs []*dst.File) [2]listRef {
 			return [2]listRef{{nth(fs[0], "CompositeLit", 0), "Elts"}, {nth(fs[0], "CompositeLit", 1), "Elts"}}
 		}},
-	{Name: "arg", Files: []string{"package p\n\nvar s = g(\n%A%\n)\n\nvar t = h(\n%B%\n)\n"}, Term: ",", Inline: true,
+	{Name: "arg", Inner2: map[int]string{2: "f(\n4, // it2\n// id2\n)"}, Files: []string{"package p\n\nvar s = g(\n%A%\n)\n\nvar t = h(\n%B%\n)\n"}, Term: ",", Inline: true,
 		A: [][2]string{{"1", "(1 /*i0*/)"}, {"2 + 3", "2 + /*i1*/ 3"}, {"f(\n4,\n)", "f( /*i2*/\n4,\n)"}},
 		B: [][2]string{{"7", "(7 /*i3*/)"}, {"8 * 9", "8 * /*i4*/ 9"}},
 		Locate: func(fs []*dst.File) [2]listRef {
 			return [2]listRef{{fs[0].Decls[0].(*dst.GenDecl).Specs[0].(*dst.ValueSpec).Values[0], "Args"}, {fs[0].Decls[1].(*dst.GenDecl).Specs[0].(*dst.ValueSpec).Values[0], "Args"}}
 		}},
-	{Name: "clause", Files: []string{"package p\n\nfunc f() {\nswitch v {\n%A%\n}\nswitch w {\n%B%\n}\n}\n"},
+	{Name: "clause", Inner2: map[int]string{2: "default:\nb() // it2\n// id2\nc()"}, Files: []string{"package p\n\nfunc f() {\nswitch v {\n%A%\n}\nswitch w {\n%B%\n}\n}\n"},
 		A: [][2]string{{"case 1:\na()", "case /*i0*/ 1:\na()"}, {"case 2, 3:", "case 2, /*i1*/ 3:"}, {"default:\nb()\nc()", "default:\nb( /*i2*/ )\nc()"}},
 		B: [][2]string{{"case 7:\nx()", "case /*i3*/ 7:\nx()"}, {"case 8:", "case /*i4*/ 8:"}},
 		Locate: func(fs []*dst.File) [2]listRef {
@@ -127,6 +130,7 @@ const (
 	cfgTrail
 	cfgLeadTrail
 	cfgInner
+	cfgInner2
 	nCfg
 )
 
@@ -150,6 +154,9 @@ func (k *c02Kind) chunk(e int, cfg int, sep int) string {
 	text := el[0]
 	if cfg == cfgInner {
 		text = el[1]
+	}
+	if cfg == cfgInner2 {
+		text = k.Inner2[e]
 	}
 	if sep == 2 { // inline: block comments only
 		s := text
@@ -306,7 +313,7 @@ func init() {
 	core.Register(&core.Prop{
 		ID:    "C02",
 		Level: "model_checking",
-		Rule: "9 list kinds x two lists (3+2 elements of different shapes) x comment layouts (6 configurations per element: none, 1 or 2 leading lines, trailing, leading+trailing, inner) x separator {newline, blank line, inline}; " +
+		Rule: "9 list kinds x two lists (3+2 elements of different shapes) x comment layouts (7 configurations per element: none, 1 or 2 leading lines, trailing, leading+trailing, inner, inner nested list with trailing + dangling comment) x separator {newline, blank line, inline}; " +
 			"layouts whose elements do not all carry the same (Before, After) are outside the quantifier (counted); explicit-state BFS from the identity arrangement over swap/delete/duplicate-with-Clone (after, at end)/move-to-other-list, " +
 			"depth 1 on all layouts and depth 2 on 36 per kind (quick), depth 3 (thorough); successor = fresh parse + replay; oracle: print == gofmt(text whose chunks were edited the same way); equal arrangements reached by different histories print equally; " +
 			"state = (kind, layout, arrangement of element ids); non-trivial = arrangement differing from the identity with at least one comment",
@@ -357,6 +364,11 @@ func runC02(ctx *core.Ctx, unit int) {
 					ctx.Count("excluded: elements do not carry uniform (Before, After)", 1)
 					continue
 				}
+				if !o.OK && strings.HasPrefix(o.Key, "known-layout:") {
+					// the unedited layout itself falls under one of C01's known layout findings
+					ctx.Count("excluded: unedited layout is a known C01 layout finding ("+strings.TrimPrefix(o.Key, "known-layout:")+")", 1)
+					continue
+				}
 				ctx.Count(fmt.Sprintf("layouts explored: %s sep=%d", k.Name, sep), 1)
 				depth := 1
 				if c2 == c0 {
@@ -403,7 +415,12 @@ func runC02(ctx *core.Ctx, unit int) {
 // only trailing/inner comments are well-defined there; comments inside an import spec are moved to the
 // end of the spec by gofmt's import sorting (format.Node), which is not dst's doing.
 func c02LayoutInScope(k *c02Kind, cfg [5]int, sep int) bool {
-	for _, c := range cfg {
+	for e, c := range cfg {
+		if c == cfgInner2 {
+			if _, ok := k.Inner2[e]; !ok || sep == 2 {
+				return false
+			}
+		}
 		if sep == 2 && (c == cfgLead1 || c == cfgLead2 || c == cfgLeadTrail) {
 			return false
 		}
@@ -502,8 +519,27 @@ func c02Exec(cs c02Case) (out core.Outcome, key string, uniform bool) {
 			return fail("print-error", "%v", err)
 		}
 		if got != w {
+			if len(cs.Hist) == 0 {
+				// known C01 findings are attributed through C01's own signatures and need C01's list
+				if c01FindingIDs == nil {
+					c01FindingIDs = core.KnownOf("C01")
+				}
+				for _, f := range c01FindingIDs {
+					core.KnownActive[f] = true
+				}
+				id := layoutKnown(w, got)
+				for _, f := range c01FindingIDs {
+					delete(core.KnownActive, f)
+				}
+				if id != "" {
+					return core.Outcome{Key: "known-layout:" + id}, "x", true
+				}
+			}
 			return fail("edited-print-differs:"+k.Name+":"+c01Class(w, got), "file %d: print of the edited tree differs from gofmt of the text whose chunks were edited the same way\n%s", i, diffDesc(w, got))
 		}
 	}
 	return core.Outcome{OK: true}, key, true
 }
+
+// ids of C01's listed layout findings (known_findings.json), whose signatures C02 reuses
+var c01FindingIDs []string
